@@ -86,10 +86,10 @@ class Report:
     def check_floors(self):
         for rid in self.order:
             r = self.rules[rid]
-            if r.instances - r.failed < r.floor and r.failed == 0:
+            if len(r.keys) < r.floor and r.failed == 0:
                 self.violation("%s:floor:%s" % (self.prop, rid), rid,
-                               "rule %s matched %d instance(s), below the floor of %d confirmed by hand: an anchor is missing or the rule went blind"
-                               % (rid, r.instances, r.floor), where="(whole crate)")
+                               "rule %s matched %d distinct instance(s), below the floor of %d confirmed by hand: an anchor is missing or the rule went blind"
+                               % (rid, len(r.keys), r.floor), where="(whole crate)")
 
     # ----- output -----
     def finish(self, seed=0):
@@ -147,7 +147,7 @@ class Report:
         print("== %s [%s] ==" % (self.prop, self.tier))
         for rid in self.order:
             r = self.rules[rid]
-            print("  rule %-14s instances=%-4d floor=%-4d failed=%d  %s" % (rid, r.instances, r.floor, r.failed, r.text[:90]))
+            print("  rule %-14s instances=%-4d distinct=%-4d floor=%-4d failed=%d  %s" % (rid, r.instances, len(r.keys), r.floor, r.failed, r.text[:80]))
         for c in self.controls:
             print("  control %-28s fired=%s" % (c["control"], c["fired"]))
         for n in self.notes:
@@ -173,3 +173,32 @@ def load_known():
     with open(KNOWN_FILE) as fh:
         d = json.load(fh)
     return {f["key"]: f for f in d.get("findings", []) if "key" in f}
+
+
+class Sink:
+    """Rule functions report through a sink: the real run forwards to a Report,
+    the positive-control run (fixtures/bad) only collects."""
+
+    def __init__(self, report=None, prop=None):
+        self.report = report
+        self.prop = prop or (report.prop if report else "?")
+        self.bad_keys = []
+        self.ok_count = 0
+
+    def ok(self, rule, instance, **facts):
+        self.ok_count += 1
+        if self.report:
+            self.report.rules[rule].ok(instance, **facts)
+
+    def bad(self, rule, slug, symbol, msg, where=None, **facts):
+        key = "%s:%s:%s" % (self.prop, slug, symbol)
+        self.bad_keys.append(key)
+        if self.report:
+            self.report.violation(key, rule, msg, where, **facts)
+
+    def fired(self, slug, symbol_part=""):
+        pre = "%s:%s:" % (self.prop, slug)
+        return any(k.startswith(pre) and symbol_part in k for k in self.bad_keys)
+
+
+BAD_FIXTURE = os.path.join(VERIF, "fixtures", "bad")
